@@ -11,7 +11,6 @@ import (
 	"os"
 	"path/filepath"
 	"runtime/debug"
-	"sort"
 	"sync"
 	"time"
 
@@ -225,7 +224,7 @@ func (w *world) observe() *obs {
 		o.nonce[s] = w.pool.Nonce(addrs[s])
 	}
 	o.statP, o.statQ = w.pool.Stats()
-	o.v = w.pool.VerifC17View(addrs[:])
+	o.v = w.pool.VerifC17View()
 	for _, a := range o.v.BeatOrder {
 		if s, ok := addrIndex[a]; ok {
 			o.beatOrder = append(o.beatOrder, s)
@@ -477,14 +476,4 @@ func (w *world) apply(o *opDef) (res opResult) {
 		w.pool.SetGasPrice(price)
 	}
 	return
-}
-
-// sortedCopy returns the tokens sorted by id (set comparison).
-func sortedIDs(ts []*token) []int {
-	out := make([]int, len(ts))
-	for i, t := range ts {
-		out[i] = t.id
-	}
-	sort.Ints(out)
-	return out
 }
